@@ -40,6 +40,12 @@ class ReplayDivergence(Exception):
   pass
 
 
+class HarnessStall(Exception):
+  """No controlled thread made progress for a long real time: a bug of the
+  harness (or a blocking call the scheduler does not virtualise), never a
+  verdict about the code under test."""
+
+
 class _Abandon(BaseException):
   """Raised inside leftover threads when a run is torn down."""
 
@@ -235,7 +241,14 @@ class Sched:
       _real_start(t)
       self.current = st
       st.sem.release()
-      self.finished.acquire()
+      last_steps = -1
+      while not self.finished.acquire(timeout=30):
+        if self.steps == last_steps:      # 30 s of real time without a single step
+          import faulthandler
+          faulthandler.dump_traceback(all_threads=True)
+          self.failure = HarnessStall('no scheduling step for 30 s of real time (step %d)' % self.steps)
+          break
+        last_steps = self.steps
     finally:
       self.active = False
       uninstall()
